@@ -42,6 +42,13 @@ impl DownloadManifest {
         // Validate header
         header.validate()?;
 
+        // Every entry takes at least the key, the 40-bit size and the priority:
+        // an entry count the input cannot hold must not size an allocation
+        let min_entry_size = header.ekey_length() as usize + 6;
+        if (header.entry_count() as usize).saturating_mul(min_entry_size) > data.len() {
+            return Err(std::io::Error::from(std::io::ErrorKind::UnexpectedEof).into());
+        }
+
         let mut entries = Vec::with_capacity(header.entry_count() as usize);
         let mut tags = Vec::with_capacity(header.tag_count() as usize);
 
